@@ -15,7 +15,7 @@ Upper == {"A","B","C","D","E","F","G","H","I","J","K","L","M","N","O","P","Q","R
 WordChars == Lower \cup Upper \cup Digits \cup {"_"}
 NameChars == WordChars \cup {":", ".", "-"}
 (* printable ASCII the harness uses that are NOT allowed; anything else (non-ASCII) is left unspecified *)
-KnownBad == {" ", "/", "!", "@", "#", "$", "%", "^", "&", "*", "(", ")", "+", "=", ",", ";", "?", "\\", "\"", "'", "<", ">", "[", "]", "{", "}", "|", "~", "`", "\t", "\n"}
+KnownBad == {" ", "/", "!", "@", "#", "$", "%", "^", "&", "*", "(", ")", "+", "=", ",", ";", "?", "\\", "\"", "'", "<", ">", "[", "]", "{", "}", "|", "~", "`", "\t", "\n", "\r"}
 Specified(cs) == \A j \in 1..Len(cs) : cs[j] \in NameChars \cup KnownBad
 
 RECURSIVE TrailDigits(_)
